@@ -359,12 +359,10 @@ func (c08) Run(c *core.Case, env *core.Env) {
 		if huge {
 			// a few cuts only (every decode reads megabytes): the end, the
 			// middle, and around the sizes a reader might stop at
-			cuts = append(cuts, L-1, L-3, L-4, L-5, L-4000, L/2, 8)
-			for _, b := range []int{1 << 20, 4 << 20, 8 << 20, 10 << 20, 16 << 20} {
-				for _, d := range []int{-1, 0, 1, 9, 4097} {
-					if b+d > 0 && b+d < L {
-						cuts = append(cuts, b+d)
-					}
+			cuts = append(cuts, L-1, L-4, L/2)
+			for _, b := range []int{8 << 20, 10<<20 + 1, 10<<20 + 4097, 16<<20 + 1} {
+				if b < L {
+					cuts = append(cuts, b)
 				}
 			}
 			env.Probe("cuts-sampled-not-exhaustive")
@@ -396,7 +394,7 @@ func (c08) Run(c *core.Case, env *core.Env) {
 			// the readers the library itself hands to the decoders: a
 			// bytes.Buffer / bytes.Reader holding exactly what arrived
 			for _, rk := range []string{"bytes.Buffer", "bytes.Reader", "bufio.Reader"} {
-				if huge && rk != "bytes.Reader" {
+				if huge && (rk != "bytes.Reader" || k%2 == 1) {
 					continue
 				}
 				var rd io.Reader
@@ -423,7 +421,7 @@ func (c08) Run(c *core.Case, env *core.Env) {
 					if end.withEnd && k == 0 {
 						continue
 					}
-					if huge && (frag != "greedy" || ei != k%len(c08endings)) {
+					if huge && (frag != "greedy" || ei != k%len(c08endings) || k%2 == 0) {
 						continue
 					}
 					rd := &sio.Reader{Data: enc[:k], Frag: frag, R: r, EndErr: end.err, WithEnd: end.withEnd}
